@@ -42,6 +42,20 @@ fn full_table(alloc: &mut entity::Allocator<V3>) -> (Archetype<V3>, [entity::Ide
     (t, [i0, i1])
 }
 
+/// which row (0 or 1) of the two-row column starting at `base` `p` points at; 2 = neither.
+/// The property fixes no iteration order: harnesses identify the row an item belongs to by its
+/// address, require every row exactly once, and require the items of the other views of the same
+/// result to belong to the SAME row.
+fn row_of<T>(p: *const T, base: *const T) -> usize {
+    if p == base {
+        0
+    } else if p == unsafe { base.add(1) } {
+        1
+    } else {
+        2
+    }
+}
+
 /// `&A, &mut C` over {A,B,C}: each iterator walks the column of *its* component
 #[kani::proof]
 #[kani::unwind(5)]
@@ -51,11 +65,14 @@ fn view_ref_and_mut() {
     let c = cols_full(&t);
     let (mut ra, (mut rc, _)) = unsafe { t.view::<Views!(&VA, &mut VC), _>() };
     let mut r = 0;
+    let mut seen = [false; 2];
     while r < 2 {
         let va = ra.next().unwrap();
         let vc = rc.next().unwrap();
-        assert!(va as *const VA == unsafe { c.a.add(r) }, "C03: &A yields row r of A's column");
-        assert!(vc as *mut VC as *const VC == unsafe { c.c.add(r) }, "C03: &mut C yields row r of C's column (skipping B)");
+        let k = row_of(va as *const VA, c.a);
+        assert!(k < 2 && !seen[k], "C03: &A yields a cell of A's column, every row once");
+        seen[k] = true;
+        assert!(row_of(vc as *mut VC as *const VC, c.c) == k, "C03: &mut C yields the same row's cell of C's column (skipping B)");
         r += 1;
     }
     assert!(ra.next().is_none() && rc.next().is_none(), "C03: one result per row");
@@ -72,23 +89,29 @@ fn view_optional_present_then_later_component() {
     {
         let (mut ra, (mut rc, _)) = unsafe { t.view::<Views!(Option<&mut VA>, &VC), _>() };
         let mut r = 0;
+        let mut seen = [false; 2];
         while r < 2 {
             let va = ra.next().unwrap();
             let vc = rc.next().unwrap();
             assert!(va.is_some(), "C03: optional view of a present component is Some");
-            assert!(va.unwrap() as *mut VA as *const VA == unsafe { c.a.add(r) });
-            assert!(vc as *const VC == unsafe { c.c.add(r) }, "C03: a view after Option<&mut A> still reads its own column");
+            let k = row_of(va.unwrap() as *mut VA as *const VA, c.a);
+            assert!(k < 2 && !seen[k], "C03: Option<&mut A> yields a cell of A's column, every row once");
+            seen[k] = true;
+            assert!(row_of(vc as *const VC, c.c) == k, "C03: a view after Option<&mut A> still reads its own column (same row)");
             r += 1;
         }
     }
     {
         let (mut rb, (mut rc, _)) = unsafe { t.view::<Views!(Option<&VB>, &mut VC), _>() };
         let mut r = 0;
+        let mut seen = [false; 2];
         while r < 2 {
             let vb = rb.next().unwrap();
             let vc = rc.next().unwrap();
-            assert!(vb.unwrap() as *const VB == unsafe { c.b.add(r) });
-            assert!(vc as *mut VC as *const VC == unsafe { c.c.add(r) }, "C03: a view after Option<&B> still reads its own column");
+            let k = row_of(vb.unwrap() as *const VB, c.b);
+            assert!(k < 2 && !seen[k], "C03: Option<&B> yields a cell of B's column, every row once");
+            seen[k] = true;
+            assert!(row_of(vc as *mut VC as *const VC, c.c) == k, "C03: a view after Option<&B> still reads its own column (same row)");
             r += 1;
         }
     }
@@ -109,11 +132,14 @@ fn view_optional_absent_and_identifier() {
         unsafe { t.view::<Views!(entity::Identifier, &VA, Option<&mut VB>, &mut VC), _>() };
     let ids = [i0, i1];
     let mut r = 0;
+    let mut seen = [false; 2];
     while r < 2 {
-        assert!(rid.next().unwrap() == ids[r], "C03: each result carries that entity's own identifier");
-        assert!(ra.next().unwrap() as *const VA == unsafe { ca.add(r) });
+        let k = row_of(ra.next().unwrap() as *const VA, ca);
+        assert!(k < 2 && !seen[k], "C03: &A yields a cell of A's column, every row once");
+        seen[k] = true;
+        assert!(rid.next().unwrap() == ids[k], "C03: each result carries that entity's own identifier");
         assert!(rb.next().unwrap().is_none(), "C03: optional view is None exactly when the component is absent");
-        assert!(rc.next().unwrap() as *mut VC as *const VC == unsafe { cc.add(r) }, "C03: absent optional component consumes no column");
+        assert!(row_of(rc.next().unwrap() as *mut VC as *const VC, cc) == k, "C03: absent optional component consumes no column (same row)");
         r += 1;
     }
     assert!(rid.next().is_none() && ra.next().is_none() && rb.next().is_none() && rc.next().is_none());
@@ -197,15 +223,19 @@ fn view_write_is_local() {
         t.push(entity!(VB(b[1]), VC(cv[1])), &mut alloc);
     }
     let nv: u16 = kani::any();
+    let pb = t.components[0].0 as *const VB;
+    let pc = t.components[1].0 as *const VC;
+    let k;
     {
         let (mut rb, _) = unsafe { t.view::<Views!(&mut VB), _>() };
         rb.next();
-        rb.next().unwrap().0 = nv;
+        let second = rb.next().unwrap();
+        k = row_of(second as *mut VB as *const VB, pb);
+        assert!(k < 2, "C03: &mut B yields a cell of B's column");
+        second.0 = nv;
     }
-    let pb = t.components[0].0 as *const VB;
-    let pc = t.components[1].0 as *const VC;
     unsafe {
-        assert!((*pb.add(1)).0 == nv && (*pb).0 == b[0], "C03: write seen by later reads of that entity only");
+        assert!((*pb.add(k)).0 == nv && (*pb.add(1 - k)).0 == b[1 - k], "C03: write seen by later reads of that entity only");
         assert!((*pc).0 == cv[0] && (*pc.add(1)).0 == cv[1], "C03: other components untouched");
     }
 }
@@ -381,10 +411,15 @@ mod par {
     }
 }
 
-/// `got` are the addresses of rows 0 and 1 of the column starting at `base` (element-wise: an
-/// array `==` is a memcmp loop)
+/// `got` are the addresses of the two rows of the column starting at `base`, in either order
+/// (element-wise: an array `==` is a memcmp loop)
 fn rows_of<T>(got: [usize; 2], base: *const T) -> bool {
-    got[0] == base as usize && got[1] == unsafe { base.add(1) } as usize
+    let (k0, k1) = (row_of(got[0] as *const T, base), row_of(got[1] as *const T, base));
+    k0 < 2 && k1 < 2 && k0 != k1
+}
+/// the two views of one parallel result list are aligned: item i of both belongs to the same row
+fn aligned<T, U>(a: [usize; 2], base_a: *const T, b: [usize; 2], base_b: *const U) -> bool {
+    row_of(a[0] as *const T, base_a) == row_of(b[0] as *const U, base_b) && row_of(a[1] as *const T, base_a) == row_of(b[1] as *const U, base_b)
 }
 
 /// `&mut A, &mut C` in parallel over {A,B,C}: each parallel iterator walks its own column, so no
@@ -401,6 +436,7 @@ fn view_par_mut_and_mut() {
     assert!(na == 2 && nc == 2, "C09: one parallel result per row");
     assert!(rows_of(aa, c.a), "C09: par &mut A walks A's column");
     assert!(rows_of(ac, c.c), "C09: par &mut C walks C's column (skipping B)");
+    assert!(aligned(aa, c.a, ac, c.c), "C09: item i of both views belongs to the same entity");
 }
 
 /// an optional mutable parallel view of a PRESENT component consumes that column: the view after
@@ -417,6 +453,7 @@ fn view_par_optional_mut_present_then_later_component() {
     assert!(na == 2 && nb == 2, "C09: one parallel result per row");
     assert!(rows_of(aa, c.a), "C09: par Option<&mut A> of a present component is Some(cell of A)");
     assert!(rows_of(ab, c.b), "C09: the view after par Option<&mut A> walks its own column (no aliasing)");
+    assert!(aligned(aa, c.a, ab, c.b), "C09: item i of both views belongs to the same entity");
 }
 
 /// same for an optional immutable parallel view
@@ -432,6 +469,7 @@ fn view_par_optional_ref_present_then_later_component() {
     assert!(nb == 2 && nc == 2);
     assert!(rows_of(ab, c.b), "C09: par Option<&B> of a present component is Some(cell of B)");
     assert!(rows_of(ac, c.c), "C09: the view after par Option<&B> walks its own column");
+    assert!(aligned(ab, c.b, ac, c.c), "C09: item i of both views belongs to the same entity");
 }
 
 /// optional parallel views of an ABSENT component yield None per row and consume no column
@@ -452,4 +490,5 @@ fn view_par_optional_absent() {
     assert!(rows_of(aa, ca));
     assert!(ab[0] == 0 && ab[1] == 0, "C09: par optional view is None exactly when the component is absent");
     assert!(rows_of(ac, cc), "C09: an absent optional component consumes no column");
+    assert!(aligned(aa, ca, ac, cc), "C09: item i of both views belongs to the same entity");
 }
